@@ -14,6 +14,7 @@ from . import c08  # DAG.moralize contract
 
 
 class ToMarkovModel(Contract):
+    pure = True   # does not modify any pre-existing object
     file = "pgmpy/models/BayesianNetwork.py"
     qual = "BayesianNetwork.to_markov_model"
 
@@ -45,6 +46,7 @@ register(ToMarkovModel())
 
 
 class IsClique(Contract):
+    pure = True   # does not modify any pre-existing object
     file = "pgmpy/base/UndirectedGraph.py"
     qual = "UndirectedGraph.is_clique"
 
